@@ -1,12 +1,17 @@
 """C17 - pipeline property judged by spec/QuillContract.tla (flag ok17) through TLC trace validation (spec/TraceQuill.tla) of
 executions of the real frontend/backend recorded by harness/h_sys; scenario family in props/sysfam.py; implementation-shaped
 exploration in spec/Quill.tla (pipeline with logger removal) and spec/Registry.tla (logger and sink registries, object
-lifetimes, create/get/remove by name; tools/regmodel.py)."""
+lifetimes, create/get/remove by name; tools/regmodel.py); the remove_logger_blocking() handshake (request through the queue,
+remove_logger, the backend's idle-branch clean-up, sink destruction, the caller's flag) in spec/StopRA.tla (tools/stopmodel.py)."""
 import os
-import sysfam, qsys, regmodel, lockmodel, removemodel
+import sysfam, qsys, regmodel, lockmodel, removemodel, stopmodel
 
 
 def run(ck):
+    # the remove_logger_blocking() handshake under release/acquire on the REAL backend thread (spec/StopRA.tla, harness/h_stop)
+    stopmodel.run_for(ck)
+    if os.environ.get("VERIF_PART") == "stopra":
+        return
     lockmodel.run_for(ck)          # the registry lock under release/acquire (spec/SpinlockRA.tla, harness/h_lock)
     removemodel.run_for(ck)        # the removal flags under release/acquire (spec/RemoveRA.tla, harness/h_remove)
     regmodel.run_for(ck)
@@ -29,5 +34,7 @@ def replay(ck, path):
         lockmodel.replay(path)
     elif hn == "h_remove":
         removemodel.replay(path)
+    elif hn == "h_stop":
+        stopmodel.replay(path)
     else:
         qsys.replay(path)
